@@ -56,6 +56,10 @@ var hostile = [][]byte{
 	[]byte("/../"), []byte("/../../"), []byte("//../"), []byte("/x/../../"),
 	[]byte("../dest-sibling/"), []byte("../dest2"), []byte("../destx/"), []byte("dest-sibling"), []byte("dest2"),
 	[]byte(".\x1b(B./dest-sibling/"), []byte(".\x1b(B./dest2"), []byte(".\x1b(J./destx/"), []byte(".\x0f./dest-sibling/"),
+	// ... and names that, once converted, designate something that EXISTS next to the destination (what a clean-up of a
+	// refused entry must not touch)
+	[]byte(".\x1b(B./sibling.txt"), []byte(".\x1b(B./dest-sibling/s.txt"), []byte(".\x1b(B./dest-sibling"), []byte("\x80/.\x1b(B./.\x1b(B./sibling.txt"),
+	[]byte(".\x1b(J./sibling.txt"), []byte("x1/.\x1b(B./.\x1b(B./dest-sibling/s.txt"),
 	[]byte("../d\xc3\xa9 st \xe6\x97\xa5\xe6\x9c\xac-sibling/"), []byte(".\x1b(B./d\xc3\xa9 st \xe6\x97\xa5\xe6\x9c\xac-sibling/"),
 }
 
